@@ -453,13 +453,40 @@ def battery():
     load.setup('plain')
     sys.stdout = open(os.devnull, 'w')
     _configure()
+    out = battery_digests()
+    sys.__stdout__.write(json.dumps(out))
+    sys.__stdout__.flush()
+
+
+def near_pairs():
+    """Pairs of 4-state, two-letter DFAs that differ in ONE transition target or ONE accepting bit (wave 7): a pairing / matching
+    routine meets a conflict late there, and whether it notices can depend on the order in which pending pairs are taken."""
+    bases = [('dfa', 4, 2, (1, 2, 1, 1, 3, 2, 3, 3), 0, 8), ('dfa', 4, 2, (1, 2, 3, 0, 0, 3, 2, 1), 0, 9), ('dfa', 4, 2, (1, 1, 2, 2, 3, 3, 0, 0), 1, 4)]
+    out = []
+    for (_, n, k, d, q0, fb) in bases:
+        for pos in range(len(d)):
+            for tgt in range(n):
+                if tgt != d[pos] and (pos + tgt) % 2 == 0:
+                    out.append((('dfa', ('dfa', n, k, d, q0, fb)), ('dfa', ('dfa', n, k, d[:pos] + (tgt,) + d[pos + 1:], q0, fb))))
+        for bit in range(n):
+            out.append((('dfa', ('dfa', n, k, d, q0, fb)), ('dfa', ('dfa', n, k, d, q0, fb ^ (1 << bit)))))
+    return out
+
+
+def battery_digests(first=30, first_pairs=30):
     out = {}
     for o in O.OPS:
         objkinds = [k for k in o['args'] if O.base_kind(k) in O.OBJ_KINDS]
         extrakinds = [k for k in o['args'] if O.base_kind(k) not in O.OBJ_KINDS]
         n = 0
-        for idx, items in enumerate(instances(o, 's', 60)):
-            if n >= 30:
+        cases = list(enumerate(instances(o, 's', 60)))
+        cap = first
+        if objkinds == ['dfa', 'dfa']:
+            near = near_pairs()
+            cases = [(10000 + i, it) for i, it in enumerate(near)] + cases
+            cap = len(near) + first_pairs
+        for idx, items in cases:
+            if n >= cap:
                 break
             schemes = ['s', 'r'] if len(items) == 2 else [None]
             try:
@@ -482,8 +509,41 @@ def battery():
                     out[key] = json.dumps(core.jsonable(O.signature(o['res'], r)), sort_keys=True, ensure_ascii=False)
                 except Exception as e:
                     out[key] = 'raises ' + type(e).__name__
+    return out
+
+
+def battery_under_order(order, first):
+    """Executed in a fresh INSTRUMENTED subprocess (hash seed 0): the battery under one set-order policy of the scheduler."""
+    from mc import load
+    load.setup('instr')
+    from mc import instr
+    sys.stdout = open(os.devnull, 'w')
+    _configure()
+    kw = {}
+    if order.startswith('obj'):
+        kw = {'objbit': int(order[3]), 'objflip': 1 if order.endswith('f') else 0}
+        core.NEWCALL = instr.S.newcall
+    instr.S.reset(boost=(), budget=10 ** 15, native=False, record=False, reverse=(order == 'reversed'), **kw)
+    try:
+        out = battery_digests(first, first)
+    finally:
+        instr.S.reset()
+        core.NEWCALL = None
     sys.__stdout__.write(json.dumps(out))
     sys.__stdout__.flush()
+
+
+def t_order(acc, order, first=30):
+    """(e) The same battery in a fresh instrumented process under one set-order policy (see mc.props.common:t_ordered): a global
+    canonical or reversed order, or per-object orders.  The digests are compared with those of the hash-seed processes in finish()."""
+    env = dict(os.environ, PYTHONHASHSEED='0')
+    root = os.path.dirname(os.path.dirname(os.path.dirname(os.path.abspath(__file__))))
+    p = subprocess.run([sys.executable, '-B', '-c', 'from mc.props import c19; c19.battery_under_order({!r}, {})'.format(order, int(first))], cwd=root, env=env, capture_output=True, text=True, timeout=3600)
+    if p.returncode != 0:
+        raise core.MachineryError('battery under set-order policy {} failed:\n{}'.format(order, p.stderr[-2000:]))
+    acc.data['order:' + order] = json.loads(p.stdout)
+    acc.transitions += len(acc.data['order:' + order])
+    acc.c['set_order_policies_run_on_the_battery'] += 1
 
 
 def t_seed(acc, hashseed):
@@ -512,8 +572,31 @@ def finish(acc, spec):
                 acc.viol(opname, 'result depends on PYTHONHASHSEED', {'battery_key': key, 'seeds': [seeds[0], s]},
                          repro={'fn': 'mc.props.c19:replay_seed', 'mode': 'plain', 'params': {'key': key, 'seeds': [int(seeds[0][5:]), int(s[5:])]}},
                          observed={seeds[0]: base[key][:300], s: str(other.get(key))[:300]})
+    for okey in sorted(k for k in acc.data if k.startswith('order:')):
+        other = acc.data[okey]
+        for key, val in other.items():          # the order layer may run a prefix of the battery
+            if key not in base:
+                continue
+            acc.evals += 1
+            acc.validated += 1
+            acc.c['battery_entries_compared_across_set_orders'] += 1
+            if val != base[key]:
+                opname = key.split('|')[0]
+                acc.viol(opname, 'result depends on the iteration order of sets', {'battery_key': key, 'set_order_policy': okey[6:], 'compared_with': 'fresh process, ' + seeds[0]},
+                         repro={'fn': 'mc.props.c19:replay_order', 'mode': 'plain', 'params': {'key': key, 'order': okey[6:], 'seed': int(seeds[0][5:])}},
+                         observed={okey: val[:300], seeds[0]: base[key][:300]})
     acc.c['battery_entries'] = len(base)
     acc.data = {}
+
+
+def replay_order(acc, key, order, seed):
+    a = core.Acc()
+    t_seed(a, seed)
+    b = core.Acc()
+    t_order(b, order)
+    x, y = a.data['seed:%d' % seed].get(key), b.data['order:' + order].get(key)
+    if x != y:
+        acc.viol(key.split('|')[0], 'result depends on the iteration order of sets', {'battery_key': key, 'set_order_policy': order}, observed={'order:' + order: str(y)[:300], 'seed:%d' % seed: str(x)[:300]})
 
 
 def replay_seed(acc, key, seeds):
@@ -544,13 +627,17 @@ def plan(tier, seed):
         tasks.append(('plain', P + 't_history', {'opnames': names, 'depth': 2, 'part': part, 'nparts': 4}))
     for part in range(12):
         tasks.append(('plain', P + 't_history', {'opnames': CORE_OPS, 'depth': 3, 'part': part, 'nparts': 12}))
+    sub = []            # tasks that wait for a subprocess: scheduled first
     for hs in (range(3) if q else range(16)):
-        tasks.append(('plain', P + 't_seed', {'hashseed': hs}))
+        sub.append(('plain', P + 't_seed', {'hashseed': hs}))
+    for od in (('canonical', 'reversed', 'obj0', 'obj1f') if q else ('canonical', 'reversed') + common.OBJ_ORDERS):
+        sub.append(('plain', P + 't_order', {'order': od, 'first': 8 if q else 30}))
+    tasks = sub + tasks
     return {'tasks': tasks,
             'bounds': {'operations': len(O.OPS), 'argument_catalogs': 'small' if q else 'medium', 'histories': 'all call sequences of depth <= 2 over all operations, depth <= 3 over {} core operations, on a pool of 11 objects; operands of a step limited to <= 6 states (PDA 4), <= 12 rules / 6 variables, <= 12 expression nodes'.format(len(CORE_OPS)),
-                       'hash_seeds': 3 if q else 16, 'logging': 'every instance with logging off and on'},
+                       'hash_seeds': 3 if q else 16, 'set_order_policies_on_the_battery': 4 if q else 12, 'logging': 'every instance with logging off and on'},
             'exhaustive': False,
             'explanation': 'layer (b) is exhaustive: every call sequence up to the stated depth over the stated pool is executed (explicit-state search with the hidden library state in the state key). Layers (a) and (c) run over argument CATALOGS that are fixed arithmetic progressions through the spaces of mc/spaces.py and over a finite list of hash seeds; they are complete for those catalogs only. Every case was executed on the real code from the working tree.',
-            'rule': '(a) every operation x every instance of its argument catalog: canonical argument snapshot before = after, result valid, same result with logging on; (b) breadth-first search over call sequences (results join the pool): pool unchanged, result = result of the same call on equal arguments in a pristine state; (c) a fixed battery executed in fresh processes under each PYTHONHASHSEED, digests must agree. states = instances + canonical history states',
+            'rule': '(a) every operation x every instance of its argument catalog: canonical argument snapshot before = after, result valid, same result with logging on; (b) breadth-first search over call sequences (results join the pool): pool unchanged, result = result of the same call on equal arguments in a pristine state; (c) a fixed battery (incl. near-miss pairs of 4-state DFAs) executed in fresh processes under each PYTHONHASHSEED, digests must agree; (e) a prefix of the same battery executed under set-order policies of the scheduler (global canonical / reversed order, per-object orders), digests must agree with those of the fresh processes. states = instances + canonical history states',
             'assumptions': ['generality over set orders rests on the scheduler runs of C04, C06, C08, C15, C20; here a finite set of hash seeds is enumerated',
                             'which witness a simulator returns is left open (not compared)', 'pristine state = module globals / function defaults / class attributes as right after import', 'pda_epsilon_closure_max_iterations is set to {} for this check'.format(PDA_LIMIT)]}
